@@ -4,6 +4,7 @@
    decode the snapshot, then apply every record above its version in order. *)
 From Cas Require Import History.
 From CasProofs Require Import StoreFS StoreInv StoreWrite StoreHist DiskInv Recover RestartHist AtRest.
+From CasProofs Require CrashInv CrashC20.
 
 Theorem C20_at_rest :
   forall H : bytes -> bytes,
@@ -45,3 +46,13 @@ Proof.
   exists w1, m', os, w'. auto.
 Qed.
 Print Assumptions C20_restart_keeps_next_version.
+
+(* at every instant: Rest holds of every intermediate filesystem of every operation and of
+   recovery (props/C03.v), and whatever Rest holds of is a well-formed disk decoding to the map *)
+Theorem C20_every_instant :
+  forall H : bytes -> bytes,
+    (forall b, length (H b) = 32%nat) -> (forall b, Forall (fun x => x < 256) (H b)) ->
+  forall cfg : config, 0 < c_n cfg ->
+  forall (s : fs) (sg : smap bytes), CrashInv.Rest H cfg s sg -> CrashC20.WellFormedDisk H cfg s sg.
+Proof. exact CrashC20.C20_rest. Qed.
+Print Assumptions C20_every_instant.
